@@ -7,6 +7,7 @@ import (
 	"math/rand"
 	"os"
 	"sort"
+	"strconv"
 	"sync"
 	"time"
 
@@ -161,12 +162,13 @@ func (d *recvDriver) settle() (recvObs, bool) {
 	var last string
 	stable := 0
 	var o recvObs
-	for i := 0; i < 2000; i++ {
+	need := 20 * settleMult()
+	for i := 0; i < 4000*settleMult(); i++ {
 		o = d.observe()
 		b, _ := json.Marshal(o)
 		if string(b) == last {
 			stable++
-			if stable >= 6 {
+			if stable >= need {
 				return o, true
 			}
 		} else {
@@ -306,7 +308,9 @@ func cmdRecvTrace(args []string) error {
 func cmdRecvCorrupt(args []string) error {
 	R := NewResult()
 	rng := Rng()
-	sig := func(class string) map[string]interface{} { return map[string]interface{}{"prop": "C08", "class": class} }
+	sig := func(class string) map[string]interface{} {
+		return map[string]interface{}{"prop": "C08", "class": class}
+	}
 	for sc := 0; sc < 24; sc++ {
 		insts := []string{"a", "b", "c"}
 		d := newRecvDriver(insts, 1+sc%2, 1+sc%3)
@@ -384,4 +388,13 @@ func cmdRecvCorrupt(args []string) error {
 	}
 	R.Sample("24 scenarios: 3 instances x up to 5 snapshots each, good/corrupt at random positions, limits 1..2 / 1..3")
 	return Emit(R)
+}
+
+// settleMult scales the settle windows (VERIF_SETTLE_MULT, default 1): used to re-record with a longer window
+// before an observation-based mismatch is reported.
+func settleMult() int {
+	if m, err := strconv.Atoi(os.Getenv("VERIF_SETTLE_MULT")); err == nil && m > 0 {
+		return m
+	}
+	return 1
 }
